@@ -171,7 +171,8 @@ def check_textbook(w, rep):
             b = F(w, "(1-cos(x))/x", t)
             V = MatVal(2, 2, [[a, -b], [b, a]])
             want = cm.vertcat(cm.matmul(V, w.sl(y, 0, 2)), cm.scalar(t))
-            verdict(rep, "C02.form", "SE2.exp = (V v, theta), V = [[sin t/t, -(1-cos t)/t],[(1-cos t)/t, sin t/t]]", p, want, (), w.method_where(G2, "exp")[:2], "SE(2) exponential does not use the V matrix")
+            verdict(rep, "C02.form", "SE2.exp = (V v, theta), V = [[sin t/t, -(1-cos t)/t],[(1-cos t)/t, sin t/t]]", p, want, (), w.method_where(G2, "exp")[:2], "SE(2) exponential does not use the V matrix",
+                    beyond_pi_rows=[0, 1])          # translation rows: exact also beyond pi (the heading row is an angle, compared modulo 2 pi)
         # SE(3): translation through the so(3) left Jacobian, rotation = exp of the rotation part
         se3 = w.G("se3")
         z = w.sym("z", 6)
